@@ -34,7 +34,7 @@ func loadIgnoreSwitch() bool {
 }
 
 var (
-	modPaths = []string{"example.com/m", "example.com/goose-demo/m", "ex.org/a-b/mod.x", "m0.io/x_y"}
+	modPaths = []string{"example.com/m", "example.com/goose-demo/m", "ex.org/a-b/mod.x", "m0.io/x_y", "example.com/foo/v2", "ex.org/lib/v3", "example.com/Up/v1"}
 	segments = []string{"a", "b2", "use_disk", "a-b", "c.d", "errs", "inner", "x_y", "Up", "testdata", "_hid", "not-goose", "v1.2"}
 )
 
@@ -198,6 +198,12 @@ func genCase(t *rapid.T) Case {
 		plain := dir != "" && name == base
 		if dir == "" {
 			name = "rootpkg"
+			// the root package of a module with a major-version suffix is usually named after the
+			// element before the suffix (example.com/foo/v2 → package foo; seeded change C17-6)
+			if segs := strings.Split(modPath, "/"); len(segs) >= 2 && len(segs[len(segs)-1]) == 2 && segs[len(segs)-1][0] == 'v' && gen.Chance(t, "vnname", 70) {
+				name = strings.ToLower(segs[len(segs)-2])
+				feat["root-of-vN-module-named-after-parent"] = true
+			}
 		}
 		if name == "" || gen.Range(t, "rename", 0, 3) == 0 {
 			name = fmt.Sprintf("pk%d", i)
